@@ -18,12 +18,12 @@ git diff > "$dst/patch.diff"
 cp "$demo" "$dst/$(echo "$demo" | tr '/' '_')"
 [ -f SEED_NOTES.md ] && cp SEED_NOTES.md "$dst/"
 echo "--- suite with change (demo skipped)"
-go test -vet=off -count=1 -skip 'SeedDemo' ./... 2>&1 | grep -v "^ok\|no test files" | head -5
+go test -vet=off -count=1 -skip 'TestSeed' ./... 2>&1 | grep -v "^ok\|no test files" | head -5
 suite=$?
 echo "--- demo with change (expect FAIL)"
-go test -vet=off -count=1 -run 'SeedDemo' "$pkg" 2>&1 | tail -3
+go test -vet=off -count=1 -run 'TestSeed' "$pkg" 2>&1 | tail -3
 git apply -R "$dst/patch.diff" || exit 2
 echo "--- demo without change (expect ok)"
-go test -vet=off -count=1 -run 'SeedDemo' "$pkg" 2>&1 | tail -3
+go test -vet=off -count=1 -run 'TestSeed' "$pkg" 2>&1 | tail -3
 git apply "$dst/patch.diff" || exit 2
 echo "stored in $dst; demo=$demo pkg=$pkg"
